@@ -81,7 +81,7 @@ def run(res, replay=None):
                     meta_inputs.append(new)
                     meta_info.append((k_in, gi, len(added)))
     if meta_inputs:
-        wd = os.path.join(C.CACHE, "run", "c16")
+        wd = C.rundir("c16")
         os.makedirs(wd, exist_ok=True)
         cf = os.path.join(wd, "meta.cases")
         with open(cf, "w") as f:
